@@ -20,6 +20,9 @@ import (
 // Level 1 (event level): the real SyncLoop runs in a synctest bubble; the harness pushes the header and data events
 // of a chain produced by a real aggregator into the real input channels one at a time, in EVERY order, with one
 // duplicated event anywhere and one clean stop/restart (SaveCache -> NewManager -> LoadCache) at any idle point.
+// Configuration dimension: the same with a NON-DEFAULT signature payload provider (ManagerOptions.SignaturePayloadProvider)
+// on the producer and on the full node (world.Params.CustomPayload): what is signed is node configuration, not part of
+// any encoding, so a header that waits in the header cache across the restart comes back from the cache file without it.
 
 var rootSeq atomic.Int64
 
@@ -31,7 +34,7 @@ type outcome struct {
 }
 
 func fullParams(pc *world.ProducerChain, root string) world.Params {
-	return world.Params{InitialHeight: pc.Initial, BlockTime: 1000 * time.Hour, DABlockTime: 1000 * time.Hour, RootDir: root}
+	return world.Params{InitialHeight: pc.Initial, BlockTime: 1000 * time.Hour, DABlockTime: 1000 * time.Hour, RootDir: root, CustomPayload: pc.Params.CustomPayload}
 }
 
 func body(t *testing.T, c *explore.Ctx, pc *world.ProducerChain) (out outcome) {
@@ -58,6 +61,9 @@ func bubble(c *explore.Ctx, pc *world.ProducerChain) (out outcome) {
 	var tags []string
 	if world.HasRepeatedNonEmpty(pc.Pattern) {
 		tags = append(tags, "two-blocks-with-identical-transactions")
+	}
+	if pc.Params.CustomPayload {
+		tags = append(tags, "custom-signature-payload-provider")
 	}
 	errCh := make(chan error, 4)
 	ctx, cancel := context.WithCancel(context.Background())
@@ -108,6 +114,12 @@ func bubble(c *explore.Ctx, pc *world.ProducerChain) (out outcome) {
 		if !restarted && len(remaining) > 0 && c.Choose("restart", 2) == 1 {
 			restarted = true
 			out.trace = append(out.trace, "restart")
+			for i := range dH { // a header that was delivered and is not applied yet travels through the cache file
+				if pc.Initial+uint64(i) > height {
+					tags = append(tags, "header-waiting-in-cache-at-restart")
+					break
+				}
+			}
 			cancel()
 			synctest.Wait()
 			if err := n.M.SaveCache(); err != nil {
@@ -150,6 +162,7 @@ func TestCheck(t *testing.T) {
 		"data metadata is not compared; an empty block needs only its header",
 		"producer chains are produced by a real aggregator run; executor double = hash-chain reference",
 		"ingress level: all five loops of the full node under the cooperative scheduler; blobs within <=2/3 deviations from the in-order placement on 3 DA heights; P2P stores empty or holding the chain; the sends into the sync loop's input channels are diverted into harness-side FIFOs (buffered-channel semantics) and the explorer decides at every point where an event is deliverable who goes next (a producer running ahead, the next header, the next data event; <=1/2 deviations from 'producers, headers, data') and whether the node is cleanly restarted right there (queued events are lost with the process)",
+		"custom signature payload provider: one fixed non-default provider (payload = sha256 of a tag and the header bytes, world.CustomPayloadProvider) configured on the producing aggregator and on the full node through ManagerOptions.SignaturePayloadProvider; header events carry the verifier the two ingress paths attach (block/retriever.go, block/store.go) before they push them; the statement's guarantees do not depend on which provider the chain is configured with",
 		"crowded heights: the retrieval batch size of types.RetrieveWithHelpers is taken as 100 (C09 measures it); filler blobs are short non-protobuf byte strings",
 	}
 	var patterns []string
@@ -160,23 +173,38 @@ func TestCheck(t *testing.T) {
 	type job struct {
 		pattern string
 		initial uint64
+		custom  bool // non-default signature payload provider on producer and full node
+		budgets map[string]int
 	}
 	var jobs []job
 	for _, pt := range patterns {
-		jobs = append(jobs, job{pt, 1})
+		jobs = append(jobs, job{pt, 1, false, budgets})
 	}
-	jobs = append(jobs, job{"ab", 3}, job{"ea", 3})
+	jobs = append(jobs, job{"ab", 3, false, budgets}, job{"ea", 3, false, budgets})
+	// configuration dimension "custom signature payload provider": the same chains and every permutation of their
+	// events with at most one clean restart at any idle point (quick: no duplicate — a re-delivered header replaces the
+	// cached one and so hides whatever the cache file did to it; thorough: duplicates as well on chains of <=2 blocks)
+	customBudgets := map[string]int{"dup": 0, "restart": 1}
+	nDefaultJobs := len(jobs)
+	for _, j := range jobs[:nDefaultJobs] {
+		b := customBudgets
+		if r.Thorough() && len(j.pattern) <= 2 {
+			b = budgets
+		}
+		jobs = append(jobs, job{j.pattern, j.initial, true, b})
+	}
 	if r.ReplayPath() != "" {
 		var h struct {
 			Pattern string
 			Initial uint64
 			Ingress bool
 			Crowded bool
+			Custom  bool
 			Choices []explore.Point
 		}
 		if _, err := r.LoadReplay(&h); err != nil {
 			r.EngineError(err.Error())
-		} else if pc, err := world.BuildChain(h.Pattern, h.Initial); err != nil {
+		} else if pc, err := world.BuildChainFor(h.Pattern, h.Initial, h.Custom); err != nil {
 			r.EngineError(err.Error())
 		} else {
 			explore.ReplayOne(h.Choices, func(c *explore.Ctx) {
@@ -200,7 +228,7 @@ func TestCheck(t *testing.T) {
 	l2patterns := vf.Pick(r, []string{"ab"}, []string{"ab", "ea"})
 	// level 2, crowded heights: every (filler count, DA height, ahead) configuration; small and run first so that the deadline never cuts it
 	crowdBudgets := vf.Pick(r, map[string]int{"order": 0, "restart": 0}, map[string]int{"order": 1, "restart": 1})
-	var crowdRuns, crowdPoints int64
+	var crowdRuns, crowdPoints, customRuns int64
 	crowdNs, crowdConfigs := map[string][]int{}, 0
 	for _, pt := range l2patterns {
 		pc, err := world.BuildChain(pt, 1)
@@ -237,30 +265,37 @@ func TestCheck(t *testing.T) {
 		}
 	}
 	for _, j := range jobs {
-		pc, err := world.BuildChain(j.pattern, j.initial)
+		pc, err := world.BuildChainFor(j.pattern, j.initial, j.custom)
 		if err != nil {
 			r.EngineError("producer chain " + j.pattern + ": " + err.Error())
 			continue
+		}
+		cfgName, okey := "", j.pattern
+		if j.custom {
+			cfgName, okey = " custom-signature-payload-provider", "custom:"+j.pattern
 		}
 		left := time.Until(deadline)
 		if left <= 0 {
 			caps = append(caps, "deadline reached before pattern "+j.pattern)
 			break
 		}
-		st := explore.Explore(explore.Config{Budgets: budgets, Deadline: left, ShardDepth: 2}, func(c *explore.Ctx) {
+		st := explore.Explore(explore.Config{Budgets: j.budgets, Deadline: left, ShardDepth: 2}, func(c *explore.Ctx) {
 			o := body(t, c, pc)
 			if o.fail != nil {
-				r.Report(vf.Violation{Clause: o.fail.Clause, Tags: o.tags, Msg: fmt.Sprintf("%s\n chain: genesis+%q initial=%d\n deliveries: %s", o.fail.Msg, j.pattern, j.initial, strings.Join(o.trace, " ")), Cost: len(o.trace), History: map[string]any{"Pattern": j.pattern, "Initial": j.initial, "Choices": c.Choices()}})
-				r.Outcome("fail:" + o.fail.Clause + ":" + j.pattern)
+				r.Report(vf.Violation{Clause: o.fail.Clause, Tags: o.tags, Msg: fmt.Sprintf("%s\n chain: genesis+%q initial=%d%s\n deliveries: %s", o.fail.Msg, j.pattern, j.initial, cfgName, strings.Join(o.trace, " ")), Cost: len(o.trace), History: map[string]any{"Pattern": j.pattern, "Initial": j.initial, "Custom": j.custom, "Choices": c.Choices()}})
+				r.Outcome("fail:" + o.fail.Clause + ":" + okey)
 				return
 			}
-			r.Outcome(j.pattern + ":" + strings.Join(o.trace, " "))
-			if c.Cost() >= 3 {
-				r.Sample(map[string]any{"chain": "genesis+" + j.pattern, "deliveries": strings.Join(o.trace, " "), "final_height": o.height})
+			r.Outcome(okey + ":" + strings.Join(o.trace, " "))
+			if c.Cost() >= 3 || (j.custom && c.Cost() >= 2 && len(o.trace) >= 5) {
+				r.Sample(map[string]any{"chain": "genesis+" + j.pattern, "custom_signature_payload_provider": j.custom, "deliveries": strings.Join(o.trace, " "), "final_height": o.height})
 			}
 		})
 		total.Executions += st.Executions
 		total.Points += st.Points
+		if j.custom {
+			customRuns += st.Executions
+		}
 		for _, m := range st.Nondet {
 			r.EngineError("nondeterminism: " + m)
 		}
@@ -309,8 +344,8 @@ func TestCheck(t *testing.T) {
 	total.Points += l2.Points
 	r.Finish(vf.Coverage{
 		Evaluations: total.Executions, DistinctNontrivial: int64(r.DistinctOutcomes()), States: total.Executions, Transitions: total.Points,
-		Rule:       "for every producer chain pattern over {empty, A, B} of 1..n blocks above the genesis block (incl. identical transaction lists) and two chains with initial height 3: every permutation of the header/data events, with at most one duplicated event at any later position and at most one clean stop/restart at any idle point; ingress level additionally in the crowded-height configuration: all genuine blobs at one DA height (each of the 3) behind N filler blobs, for every N that puts a genuine blob on an index in {b-1, b, b+1, 2b, 2b+1} of the height (b = retrieval batch size 100), scan ahead of or in step with the DA layer, DA the only ingress; distinct = distinct delivery traces",
+		Rule:       "for every producer chain pattern over {empty, A, B} of 1..n blocks above the genesis block (incl. identical transaction lists) and two chains with initial height 3: every permutation of the header/data events, with at most one duplicated event at any later position and at most one clean stop/restart at any idle point; the same chains once more in the configuration 'non-default signature payload provider on producer and full node' (every permutation, at most one clean restart at any idle point — so every set of headers/data waiting in the caches travels through the cache file — duplicates per custom_payload_budgets); ingress level additionally in the crowded-height configuration: all genuine blobs at one DA height (each of the 3) behind N filler blobs, for every N that puts a genuine blob on an index in {b-1, b, b+1, 2b, 2b+1} of the height (b = retrieval batch size 100), scan ahead of or in step with the DA layer, DA the only ingress; distinct = distinct delivery traces",
 		Exhaustive: true, Caps: caps,
-		Bounds: map[string]any{"blocks_above_genesis": nAbove, "patterns": len(jobs), "budgets": budgets, "ingress_patterns": l2patterns, "ingress_budgets": l2budgets, "ingress_executions": l2.Executions, "ingress_crowded_budgets": crowdBudgets, "ingress_crowded_executions_shard0": crowdRuns, "ingress_crowded_configurations": crowdConfigs, "ingress_crowded_filler_counts": crowdNs, "ingress_crowded_retrieval_batch": retrievalBatch},
+		Bounds: map[string]any{"blocks_above_genesis": nAbove, "patterns": nDefaultJobs, "budgets": budgets, "custom_payload_patterns": len(jobs) - nDefaultJobs, "custom_payload_budgets": customBudgets, "custom_payload_budgets_thorough_chains_up_to_2_blocks": budgets, "custom_payload_executions_shard0": customRuns, "ingress_patterns": l2patterns, "ingress_budgets": l2budgets, "ingress_executions": l2.Executions, "ingress_crowded_budgets": crowdBudgets, "ingress_crowded_executions_shard0": crowdRuns, "ingress_crowded_configurations": crowdConfigs, "ingress_crowded_filler_counts": crowdNs, "ingress_crowded_retrieval_batch": retrievalBatch},
 	})
 }
